@@ -184,6 +184,10 @@ def addTree (s : Store) (t n : Nat) : Store :=
   let s1 := (s.tree t).taxa.foldl (fun acc x => match x with | some x => addMember acc n x | none => acc) s
   setTree s1 t { (s.tree t) with ns := n }
 
+/-- `update_taxon_namespace()`: every node taxon is added (as the object it is) to namespace `n` -/
+def addTaxa (s : Store) (n : Nat) (xs : List (Option Nat)) : Store :=
+  xs.foldl (fun acc x => match x with | some x => addMember acc n x | none => acc) s
+
 inductive Strat where | migrate | add
 deriving DecidableEq, Repr
 
@@ -371,6 +375,8 @@ inductive Op where
   | dsdetach (d : Nat)
   | dsunify (d : Nat) (n : Option Nat)
   | dsread (d : Nat) (taxa : List String) (rows : Option (List String)) (trees : Option (List (List String)))
+  | newtreeseed (l t : Nat)                             -- `tl.new_tree(seed_node=<nodes built elsewhere on the taxa of tree t>)`
+  | treeseed (n : Option Nat) (t : Nat)                 -- `Tree(seed_node=<such nodes>[, taxon_namespace=n])`
   | taadd (n t : Nat)                                   -- `TreeArray(taxon_namespace=n).add_tree(t)`: holds no tree, refuses a foreign one
 deriving Repr
 
@@ -522,6 +528,15 @@ def step (s : Store) : Op → Store × Status
         setTrees r.1 a.2 r.2
     (s3, .ok)
   | .taadd n t => (s, if (s.tree t).ns = n then .ok else .nsIdentity)
+  | .newtreeseed l t =>
+    -- `Tree(seed_node=nd, taxon_namespace=self.taxon_namespace)` ends with `update_taxon_namespace()`: the taxon objects stay
+    let n := (s.tl l).ns
+    let a := allocTree (addTaxa s n (s.tree t).taxa) { ns := n, taxa := (s.tree t).taxa }
+    (setTrees a.1 l ((a.1.tl l).trees ++ [a.2]), .ok)
+  | .treeseed (some n) t => ((allocTree (addTaxa s n (s.tree t).taxa) { ns := n, taxa := (s.tree t).taxa }).1, .ok)
+  | .treeseed none t =>
+    let r := newNs s false
+    ((allocTree (addTaxa r.1 r.2 (s.tree t).taxa) { ns := r.2, taxa := (s.tree t).taxa }).1, .ok)
 
 def run (s : Store) : List Op → Store
   | [] => s
@@ -568,6 +583,8 @@ def idsOk (s : Store) : Op → Bool
   | .dsattach d n => decide (d < s.nDs) && decide (n < s.nNs)
   | .dsunify d n => decide (d < s.nDs) && onsOk s n
   | .taadd n t => decide (n < s.nNs) && decide (t < s.nTree)
+  | .newtreeseed l t => decide (l < s.nTl) && decide (t < s.nTree)
+  | .treeseed n t => onsOk s n && decide (t < s.nTree)
 
 /-- what the driver runs: an operation addressing a missing object or position is refused and changes nothing -/
 def stepG (s : Store) (op : Op) : Store × Status :=
@@ -625,7 +642,7 @@ def owner (s : Store) : Op → Bool
 /-- the addressed container exists -/
 def inRange (s : Store) : Op → Bool
   | .append l _ _ | .insert l _ _ _ | .setitem l _ _ | .setslice l _ _ _ | .extend l _ | .add l _ | .read l _ | .newtree l _
-  | .getslice l _ _ | .pop l _ | .remove l _ | .lclone l _ | .lmig l _ _ | .lrec l _ => decide (l < s.nTl)
+  | .getslice l _ _ | .pop l _ | .remove l _ | .lclone l _ | .lmig l _ _ | .lrec l _ | .newtreeseed l _ => decide (l < s.nTl)
   | .dsaddN d _ | .dsaddL d _ | .dsaddM d _ | .dsnewlist d | .dsnewmat d | .dsnewns d | .dsattach d _ | .dsdetach d
   | .dsunify d _ | .dsread d _ _ _ => decide (d < s.nDs)
   | _ => true
